@@ -194,6 +194,16 @@ def tracking_violations(f, gcode, I):
             if any('planArc' in s and '.ret[' in s for s in syms):
                 out.append(('ExcludeRegionState.isAnyPointExcluded', '%s %s left mid-arc' % (gcode, axis),
                             'tracked %s ends at an intermediate arc sample, not at the endpoint' % letter))
+            if gcode in ('G0', 'G1') and (f.pstatus(letter) & frozenset(['A', 'F'])):
+                # a word that is absent (or has no value) leaves its axis where it was - in either positioning mode
+                key = ('param', CMDKEY, letter)
+                init = '%s.current' % aoid
+                for w in f.final(aoid, 'current', {key: frozenset(['A', 'F'])}):
+                    if isinstance(w, Num) and w.p.single_symbol() != init:
+                        out.append(('ExcludeRegionState.processLinearMoves', '%s moves %s without a %s word' % (gcode, axis, letter),
+                                    'the command has no %s value but the tracked %s changes to %r (for example an absolute '
+                                    'coordinate re-applied in relative mode)' % (letter, letter, w.p)))
+                        break
             if gcode in ('G0', 'G1') and f.valued(letter) and ('p:%s' % letter) not in deps:
                 out.append(('ExcludeRegionState.processLinearMoves', '%s %s word not tracked' % (gcode, letter),
                             'the move carries a %s word but the tracked position does not follow it (enabled=%s, excluded=%s)'
